@@ -65,7 +65,7 @@ func refShouldBuild(content string, tags map[string]bool) bool {
 
 func TestVerifBoundedShouldBuild(t *testing.T) {
 	n := verifBound(4, 6)
-	lines := []string{"// +build linux\n", "// +build !linux,amd64 android\n", "// +build ignore\n", "\n", "// comment\n", "package p\n", "//+build windows\n", "// +build linux"}
+	lines := []string{"// +build linux\n", "// +build !linux,amd64 android\n", "// +build ignore\n", "\n", "// comment\n", "package p\n", "//+build windows\n", "// +build linux", "// +builder windows\n", "// +build linux, \n"}
 	tagsets := []map[string]bool{{"linux": true, "amd64": true}, {"android": true, "arm64": true}, {"windows": true}, {}}
 	cases, nontrivial, fails := 0, 0, 0
 	first := ""
@@ -101,8 +101,8 @@ func TestVerifBoundedShouldBuild(t *testing.T) {
 func TestVerifBoundedReadImports(t *testing.T) {
 	n := verifBound(3, 4)
 	boms := []string{"", "\xef\xbb\xbf"}
-	headers := []string{"package p\n", "// c\npackage p;", "/* c */ package p\n\n", "/** doc **/\npackage p\n"}
-	specs := []string{`import "a"` + "\n", `import x "b/c"` + "\n", "import . `d`;", `import _ "e"` + "\n", "import (\n\t\"f\"\n\ty \"g\"\n)\n", "import ( \"h\"; . \"i\" )\n", "// c\n", "/* import \"no\" */\n", "import ()\n", "/** b **/\n", "/***/", "/* * / **/ "}
+	headers := []string{"package p\n", "// c\npackage p;", "/* c */ package p\n\n", "/** doc **/\npackage p\n", "package p//c\n", "package p/* c */\n"}
+	specs := []string{`import "a"` + "\n", `import x "b/c"` + "\n", `import z"j"` + "\n", "import (_`k`)\n", "import . `d`;", `import _ "e"` + "\n", "import (\n\t\"f\"\n\ty \"g\"\n)\n", "import ( \"h\"; . \"i\" )\n", "// c\n", "/* import \"no\" */\n", "import ()\n", "/** b **/\n", "/***/", "/* * / **/ "}
 	tails := []string{"", "var x = 1\n", "func f() {}\n", "type T struct{}\n"}
 	cases, nontrivial, fails := 0, 0, 0
 	first := ""
